@@ -483,7 +483,8 @@ class Exemptions:
         if f is None:
             return False
         raises = [n for n in iter_own_nodes(f.node) if isinstance(n, ast.Raise)]
-        sorts = [n for n in iter_own_nodes(f.node) if isinstance(n, ast.Call) and ast.unparse(n.func) == "sorted"]
+        sorts = [n for n in iter_own_nodes(f.node) if isinstance(n, ast.Call) and ast.unparse(n.func) == "sorted"
+                 and any(isinstance(x, ast.Lambda) and ".index(" in ast.unparse(x) for x in ast.walk(n))]
         if len(raises) < 2 or not sorts:
             return False
         return max(r.lineno for r in raises) < min(s.lineno for s in sorts)
